@@ -576,3 +576,110 @@ def declarations_do_not_read_state(ctx, rule, qualnames):
                why='the state at declaration is not the state at that step: a valid program is refused (or an invalid one '
                    'accepted) when the step is declared', key=f"declaration reads operand state in {q.split('.')[-1]}")
     ctx.count('declaring_methods_state', n)
+
+
+def no_state_outside_objects(ctx, rule, classes=None):
+    """The library's functions are functions of their arguments and of the configuration.  A result kept in a container
+    that outlives the call - a class attribute or a module-level dictionary / list written by a method - is a memo whose
+    key has to determine the result; keys built from names, quantity strings or ids do not (two substances may share a
+    name, a density may be corrected, the configuration may change).  No method writes into class-level or module-level
+    containers."""
+    model = ctx.model.plain()
+    n = 0
+    bad = []
+    mods = {m.rel: m for m in model.modules.values()}
+    module_level = set()
+    for rel in ('pyplate/pyplate.py', 'pyplate/slicer.py'):
+        mi = mods.get(rel)
+        if mi is None:
+            continue
+        for st in mi.tree.body:
+            if isinstance(st, (ast.Assign, ast.AnnAssign)):
+                tg = st.targets if isinstance(st, ast.Assign) else [st.target]
+                for t in tg:
+                    if isinstance(t, ast.Name) and isinstance(getattr(st, 'value', None), (ast.Dict, ast.List, ast.Set, ast.Call)):
+                        module_level.add(t.id)
+    class_names = set(model.classes)
+    MUT = {'append', 'add', 'update', 'pop', 'remove', 'clear', 'extend', 'insert', 'setdefault', 'discard', 'popitem'}
+    for fi in model.funcs.values():
+        if fi.mod.rel not in ('pyplate/pyplate.py', 'pyplate/slicer.py'):
+            continue
+        top = fi
+        while top.parent is not None:
+            top = top.parent
+        if classes is not None and (top.cls is None or top.cls.name not in classes):
+            continue
+        if fi.parent is not None:
+            continue
+        n += 1
+        local = {x.id for x in ast.walk(fi.node) if isinstance(x, ast.Name) and isinstance(x.ctx, ast.Store)} | set(fi.all_param_names())
+
+        def shared(e):
+            # Cls.attr / cls.attr / type(self).attr / a module-level name not shadowed locally
+            if isinstance(e, ast.Attribute) and isinstance(e.value, ast.Name) and (e.value.id in class_names or e.value.id == 'cls'):
+                return f"{e.value.id}.{e.attr}"
+            if isinstance(e, ast.Attribute) and isinstance(e.value, ast.Call) and getattr(e.value.func, 'id', '') == 'type':
+                return f"type(..).{e.attr}"
+            if isinstance(e, ast.Name) and e.id in module_level and e.id not in local:
+                return e.id
+            return None
+        for x in ast.walk(fi.node):
+            where = None
+            if isinstance(x, (ast.Assign, ast.AugAssign, ast.AnnAssign)):
+                tg = x.targets if isinstance(x, ast.Assign) else [x.target]
+                for t in tg:
+                    if isinstance(t, ast.Subscript):
+                        where = shared(t.value)
+                    elif isinstance(t, ast.Attribute):
+                        where = shared(t) if fi.name != '__init_subclass__' else None
+            elif isinstance(x, ast.Call) and isinstance(x.func, ast.Attribute) and x.func.attr in MUT:
+                where = shared(x.func.value)
+            if where:
+                bad.append((fi, x.lineno, where, ast.unparse(x)[:60]))
+    anchor = model.func('Unit.convert_from')
+    for fi, line, where, txt in bad:
+        ctx.ob(rule, ctx.model.funcs.get(fi.qualname, anchor), line, f"{fi.qualname}: nothing is kept in `{where}` between calls", False, fact=txt,
+               why='the stored value is handed out again for arguments that share the key but not the result (same name, '
+                   'other constants; same text, other configuration)', key=f"state kept outside objects in {fi.qualname}")
+    ctx.ob(rule, anchor, anchor.node.lineno, 'no method writes into a class-level or module-level container', not bad,
+           fact=f"{n} functions examined", why='see the reports', key='state outside objects', nontrivial=False)
+
+
+def no_lazily_filled_attributes(ctx, rule, classes):
+    """Derived values are recomputed or, where they are cached, dropped by everything that changes their inputs.  An
+    attribute that is filled on first use (`if x._v is None: x._v = ..`, `hasattr`, `getattr(.., None)`, `__dict__`
+    look-ups) travels with `copy` / `deepcopy` of the object and is not reset by the functions that change contents,
+    wells or the plate a slice points at: the copy answers with the original's value."""
+    model = ctx.model.plain()
+    n = 0
+    bad = []
+    for fi in model.funcs.values():
+        if fi.mod.rel not in ('pyplate/pyplate.py', 'pyplate/slicer.py') or fi.parent is not None:
+            continue
+        if fi.cls is None or fi.cls.name not in classes:
+            continue
+        n += 1
+        for x in ast.walk(fi.node):
+            # if obj.attr is None: obj.attr = ..
+            if isinstance(x, ast.If) and isinstance(x.test, ast.Compare) and len(x.test.ops) == 1 and \
+                    isinstance(x.test.ops[0], ast.Is) and isinstance(x.test.left, ast.Attribute) and \
+                    isinstance(x.test.comparators[0], ast.Constant) and x.test.comparators[0].value is None:
+                attr = ast.unparse(x.test.left)
+                if any(isinstance(s_, ast.Assign) and any(ast.unparse(t) == attr for t in s_.targets) for b in x.body for s_ in ast.walk(b)):
+                    bad.append((fi, x.lineno, attr, 'filled when it is None'))
+            if isinstance(x, ast.Call) and isinstance(x.func, ast.Name) and x.func.id in ('hasattr', 'getattr', 'setattr') and \
+                    len(x.args) >= 2 and isinstance(x.args[1], ast.Constant) and isinstance(x.args[1].value, str) and \
+                    x.args[1].value.startswith('_') and not x.args[1].value.startswith('__'):
+                if x.func.id != 'getattr' or len(x.args) == 3:
+                    bad.append((fi, x.lineno, f"{ast.unparse(x.args[0])}.{x.args[1].value}", f"{x.func.id}() on a private attribute"))
+            if isinstance(x, ast.Try):
+                for h in x.handlers:
+                    if h.type is not None and 'AttributeError' in ast.unparse(h.type):
+                        bad.append((fi, x.lineno, ast.unparse(x.body[0])[:40], 'attribute probed with try / except AttributeError'))
+    anchor = model.func('Container.__init__')
+    for fi, line, attr, how in bad:
+        ctx.ob(rule, ctx.model.funcs.get(fi.qualname, anchor), line, f"{fi.qualname}: `{attr}` is not a lazily filled cache", False, fact=how,
+               why='the value is copied with the object and survives the operations that change what it was computed from: '
+                   'the derived object reports the value of the object it was copied from', key=f"lazily filled attribute in {fi.qualname}")
+    ctx.ob(rule, anchor, anchor.node.lineno, f"no lazily filled attribute in {sorted(classes)}", not bad,
+           fact=f"{n} methods examined", why='see the reports', key='lazy attributes', nontrivial=False)
